@@ -120,6 +120,29 @@ def call_for(case: dict, st) -> Callable[[], Any]:
 def run_case(case: dict, st=None) -> Tuple[List[dict], str]:
     st = st or setup()
     case = dict(case)
+    if case.get("pre_n"):
+        # the same call on a spectrum over the same frequency range with another number of points is made first, in the same (freshly
+        # forked) process: the call that follows must end the way it ends as the first call of a fresh process
+        from vf.explore import in_child
+
+        plain = {k: v for k, v in case.items() if k != "pre_n"}
+
+        def with_pre():
+            try:
+                call_for(dict(plain, n=case["pre_n"]), st)()
+            except BaseException:  # noqa
+                pass
+            return run_case(plain, st)
+
+        ref_v, ref_o = in_child(lambda: run_case(plain, st))
+        got_v, got_o = in_child(with_pre)
+        entry = case["entry"] + (":" + case["method"] if case["entry"] == "drt" else "")
+        if got_o != ref_o or {v["key"] for v in got_v} != {v["key"] for v in ref_v}:
+            what = got_v[0]["what"] if got_v else got_o
+            return [{"key": f"totality|{entry}|outcome-depends-on-an-earlier-call|{ref_o}->{got_o}", "case": case, "detail": "",
+                     "what": f"{entry} on {case['n']} points: '{ref_o}' as the first call of a process, but '{what}' directly after the same call on "
+                             f"{case['pre_n']} points over the same frequency range"}], "violation"
+        return [], ref_o
     for k in ("lims", "np_order"):
         if k in case:
             case[k] = tuple(case[k])
@@ -234,6 +257,27 @@ def cases(thorough: bool) -> List[dict]:
             out.append({"entry": "fit", "n": n, "method": m, "weight": w})
         out.append({"entry": "fit", "n": n, "method": "auto", "weight": "auto"})
         out.append({"entry": "fit", "n": n, "method": ["leastsq", "powell"], "weight": "auto"})
+    # call sequences: the same options on a spectrum over the same range with another number of points, first
+    for a, b in ((12, 21), (21, 12)):
+        for sm, ip, win in itertools.product(["modsinc", "auto"], ["makima", "auto"], ["auto", "boxcar", "hann"]):
+            if sm == "auto" and ip == "auto" and win == "auto" and not thorough:
+                continue
+            out.append({"entry": "zhit", "n": a, "pre_n": b, "smoothing": sm, "interpolation": ip, "adm": False, "weights": "none", "window": win, "np_order": (3, 2)})
+        for test in ("complex", "real-inv", "cnls"):
+            if test == "cnls" and not thorough:
+                continue
+            out.append({"entry": "kk", "n": a, "pre_n": b, "test": test, "num_RC": "auto", "nF": 0 if test == "cnls" else 5, "adm": None, "C": True, "L": True, "rapid": True, "lims": (-1.0, 1.0)})
+        for method, kw in (("tr-nnls", {"mode": "real", "lambda_value": -1.0}), ("tr-nnls", {"mode": "imaginary", "lambda_value": 1e-3}), ("lm", {}), ("mrq-fit", {"circuit": "R(RQ)"})):
+            out.append({"entry": "drt", "n": a, "pre_n": b, "method": method, "kw": kw})
+        out.append({"entry": "fit", "n": a, "pre_n": b, "method": "least_squares", "weight": "boukamp"})
+    # every form of the method argument x every form of the weight argument (single name, 'auto', lists of 1, 2 and 3 names)
+    mforms = ["least_squares", "auto", ["leastsq"], ["leastsq", "least_squares"], ["leastsq", "least_squares", "powell"]]
+    wforms = ["modulus", "auto", ["boukamp"], ["modulus", "boukamp"], ["unity", "modulus", "proportional"]]
+    for n in ((5, 12) if thorough else (12,)):
+        for m, w in itertools.product(mforms, wforms):
+            if isinstance(m, str) and isinstance(w, str) and "auto" not in (m, w):
+                continue
+            out.append({"entry": "fit", "n": n, "method": m, "weight": w})
     return out
 
 
@@ -246,14 +290,16 @@ def run(ctx) -> None:
                 "{auto, boxcar, bogus} x weights as a full product plus an all-pairs array (full product in thorough) over 6 smoothers x 5 interpolators x "
                 "{Z, Y} x weights x 4 windows x 4 (num_points, polynomial_order) pairs on 3, 5, 12 points; DRT: tr-nnls 2 modes x 3 lambda modes, lm x 2 "
                 "order methods x model_order {0, 2, n+1}, bht (2 configurations), mrq-fit (valid and invalid circuits), tr-rbf, on 1, 2, 3, 5, 12 points; "
-                "fit: 9 methods x 4 weights, auto/auto and a method list on 1, 2, 5, 12 points. Plus an explicit-state search of the Progress counter "
+                "fit: 9 methods x 4 weights, auto/auto and a method list on 1, 2, 5, 12 points, and every form of the method argument (name, auto, "
+                "lists of 1-3) x every form of the weight argument (name, auto, lists of 1-3); Z-HIT / KK / DRT / fit calls made directly after "
+                "the same call on a spectrum over the same frequency range with another number of points (outcome must equal that of a first call). Plus an explicit-state search of the Progress counter "
                 "(enter / increment / set_message / exit on two nested contexts with totals {1,2,3,7}, register / unregister) to depth 7 (9).")
     ctx.exhaustive = True
     ctx.assumptions = ["refusal = TypeError/ValueError/library error raised by an explicit `raise` statement in pyimpspec code other than the Progress counter's own check",
                        "whether a refusal happens before or after the first notification is recorded as a statistic only",
                        "the cnls kernel is run for real on <= 8 points (12 points with automatic num_RC and no F_ext evaluation); no kernel abstraction was built"]
     cs = cases(thorough)
-    heavy = [c for c in cs if c["entry"] == "kk" and (c["test"] == "cnls" or c["nF"] != 0)] + [c for c in cs if c["entry"] == "fit" and c["method"] == "auto"]
+    heavy = [c for c in cs if c["entry"] == "kk" and (c["test"] == "cnls" or c["nF"] != 0)] + [c for c in cs if c["entry"] == "fit" and (c["method"] == "auto" or isinstance(c["weight"], list) or c["weight"] == "auto" and isinstance(c["method"], list))]
     hid = set(map(id, heavy))
     light = [c for c in cs if id(c) not in hid]
     k = 64
